@@ -59,11 +59,36 @@ def run_task(prog, tid, params, tier):
             out['detail'] = 'vacuous'
         return out
 
+    def rs_name(m, pool, nid):
+        return 'nm(&[%s])' % ', '.join('&[%s]' % ', '.join(str(VG.ev(m, b)) for b in pool.label(l)) for l in POOL[nid])
+
+    def ingest_case(res, m):
+        I = res.interp
+        pool = I.pool
+        sc_ = params['sc']
+        L = ['#[test]', 'fn verif_case() {', '    let mut mgr = ResourceRecordManager::new();', '    let mut p = Packet::new_reply(1);',
+             '    let mut recs: Vec<ResourceRecord<\'static>> = Vec::new();']
+        n_an = len(sc_['an'])
+        for i, (owner, rec) in enumerate(I.recs):
+            L.append('    let r = rec(%s, CLASS::IN, %d, %s, RData::A(A { address: %d }));' % (
+                rs_name(m, pool, owner), VG.ev(m, rec.f[2]), 'true' if VG.ev(m, rec.f[4]) else 'false', VG.ev(m, rec.f[3].f[0].f[0])))
+            L.append('    recs.push(r.clone());')
+            L.append('    p.%s.push(r);' % ('answers' if i < n_an else 'additional_records'))
+        L += ['    let service = %s;' % rs_name(m, pool, sc_['service']), '    let own = %s;' % rs_name(m, pool, sc_['own']),
+              '    crate::sync_discovery::add_response_for_test(p, &service, &own, &mut mgr);',
+              '    report(check_ingest(&mgr, &recs, &service, &own));', '}']
+        return '\n'.join(L)
+
     def viol(res, role, what, extra=None):
         m = res.ctx.model()
         pool = getattr(res.interp, 'pool', None)
         labs = {k: [VG.ev(m, b) for b in v] for k, v in pool.lab.items()} if pool else {}
         cex = {'entry': 'mdns-pipeline-no-native-entry', 'task': tid, 'labels': labs}
+        if part == 'ingest' and hasattr(res.interp, 'recs'):
+            try:
+                cex.update({'entry': 'mdns_test', 'code': ingest_case(res, m), 'expect': {'any_failure': True}})
+            except Exception as e:      # noqa
+                cex['code_error'] = repr(e)
         if extra:
             cex.update(extra(m))
         return {'status': 'violation', 'role': role, 'detail': '%s: %s (labels %r)' % (tid, what, labs), 'cex': cex}
